@@ -2248,7 +2248,18 @@ class Executor:
                     self.in_spec = saved
                 self.oblige("post", goal, self.fn, label=lab)
                 continue
-            self.oblige("post", self.spec(post, env, extra), self.fn, label=lab)
+            try:
+                goal = self.spec(post, env, extra)
+            except Unsupported as e:
+                # this clause cannot be evaluated on this exit (typically: it reads a field of a value that the code under test has replaced by
+                # something of another kind) - undecided for this clause, the remaining clauses are still checked
+                if self.emitting():
+                    line = getattr(self.fn, "lineno", 0)
+                    name = f"{self.c.target}#post.{lab}@L{line}" + (f"[{self.variant}]" if self.variant else "")
+                    self.obls.append(Obligation(name, "post", [], None, line, self.c.target, self.variant, tuple(self.prefix[: self.di]), self.inputs, self.heap0,
+                                                f"clause not evaluable on this exit: {e}"))
+                continue
+            self.oblige("post", goal, self.fn, label=lab)
         self.exits.append(("return", len(self.pc)))
 
     def on_raise(self, env, r):
